@@ -385,6 +385,14 @@ def obligations(tier):
     for (n1, J1), (n2, J2) in [(fam[0], fam[1]), (fam[2], fam[0])]:
         obs.append(SdpTask("diamond_distance.is_cb_trace_norm_of_difference", {"maps": [n1, n2]}, (lambda J1=J1, J2=J2: diamond_distance(J1 + np.eye(4), J2)),
                            (lambda V, inst: ref_cbtn(V, inst)), instance=(J1 + np.eye(4)) - J2, value_of=lambda r: 2 * float(r)))
+    # pairs of unitary channels in dimension 3 (closed form 2 sqrt(1 - delta^2), delta = distance from 0 to the convex hull of spec(U^* V))
+    U3 = [("identity", np.eye(3)), ("diag(1, i, -1)", np.diag([1, 1j, -1])), ("cyclic shift", np.roll(np.eye(3), 1, axis=0)),
+          ("diag(1, i, i)", np.diag([1, 1j, 1j]))]
+    for (n1, Ua), (n2, Ub) in [(U3[0], U3[1]), (U3[2], U3[3]), (U3[0], U3[3])]:
+        Jd = choi_of([Ua.astype(complex)]) - choi_of([Ub.astype(complex)])
+        obs.append(SdpTask("diamond_distance.is_cb_trace_norm_of_difference", {"maps": [f"qutrit unitary channel {n1}", f"qutrit unitary channel {n2}"]},
+                           (lambda Ua=Ua, Ub=Ub: diamond_distance(choi_of([Ua.astype(complex)]), choi_of([Ub.astype(complex)]))),
+                           (lambda V, inst: ref_cbtn(V, inst)), instance=Jd, value_of=lambda r: 2 * float(r), replay_oracle=cbtn_value, tol=2e-3))
     for name, J1, J2, d in fid_instances(tier):
         t = SdpTask("channel_fidelity.program_is_definition", {"pair": name}, (lambda J1=J1, J2=J2: channel_fidelity(J1, J2)),
                     ref_fid, instance=(J1, J2, d), value_of=lambda r: float(r), tol=5e-4)
